@@ -1171,6 +1171,10 @@ async fn output(
                     } else if let Some(o) = output_wires.get(out.0 as usize).copied().flatten() {
                         output_wires[out] = Some(o ^ r);
                     };
+                } else {
+                    // Every party must contribute its (authenticated) share of each output wire,
+                    // otherwise the output would silently be computed without it.
+                    return Err(MpcError::MissingOutputShareForOutReg(out).into());
                 }
             }
         }
